@@ -499,6 +499,7 @@ type Stream struct {
 // queueSends() schedules the packets to be sent ensuring coordination with the mutex
 func (s *Stream) queueSends(packets []*Packet, sendStart time.Time, metrics *lib.Metrics) bool {
 	defer lib.TimeTrack(s.logger, time.Now(), time.Second)
+	verifBeforeStreamLock(s, packets)
 	s.mu.Lock()
 	defer s.mu.Unlock()
 	for _, packet := range packets {
@@ -512,6 +513,7 @@ func (s *Stream) queueSends(packets []*Packet, sendStart time.Time, metrics *lib
 
 // queueSend() schedules the packet to be sent
 func (s *Stream) queueSend(p *Packet, sendStart time.Time, metrics *lib.Metrics) bool {
+	verifBeforeEnqueue(s, p)
 	if s.closed {
 		return false
 	}
